@@ -20,31 +20,39 @@ static void resumer_steps(bool force) {
 }
 static void interfere(void) { if (g_role == 0) leaver_steps(false); else resumer_steps(false); }
 #define PLAIN_READ(f) (f)
+/* recall_owner's two stores, named by field: the owner may switch to the stack the moment it sees the flag (get_self_recall_task), so the stack must be marked notified BEFORE the flag goes up -
+   a `notified` that lands after the owner has arrived (and finilize_resume has stored `active`) makes the next leaver re-issue a resume nobody asked for: the stack is continued twice */
+#define REC_STORE_STATE(self, v) do { OBLIGATION(!(self)->m_is_owner_recalled, "C20.recall: the suspended stack is marked notified before the recall flag is raised, not after (the owner switches to the stack as soon as it sees the flag)"); (self)->m_stack_state = (v); } while (0)
+#define REC_STORE_FLAG(self, v) do { OBLIGATION((self)->m_stack_state == notified, "C20.recall: the recall flag is raised only on a stack already marked notified"); (self)->m_is_owner_recalled = (v); } while (0)
 #define ATOMIC_STORE_AT(site, f, v) do { interfere(); (f) = (v); __CPROVER_assert(HINV, "guarantee: hand-shake invariant at " #site); } while (0)
 #define ATOMIC_XCHG_AT(site, f, v) ({ interfere(); int old_ = (f); (f) = (v); GHOST_##site; __CPROVER_assert(HINV, "guarantee: hand-shake invariant at " #site); old_; })
 /* try_notify_resume's exchange: by the resumer (first call) or by the leaver that found the stack notified */
 #define GHOST_tnr_XCHG_1 do { if (self == &P) { if (g_role == 0) { __CPROVER_assert(!r_called, "resume is called once"); r_called = true; if (old_ == suspended) r_owes = true; } \
                                               else { __CPROVER_assert(l_owes && old_ == suspended, "C20: the leaver re-issues the resume only for a stack it has just marked suspended"); } } } while (0)
 #define GHOST_fin_XCHG_1 do { if (self->m_prev_suspend_point == &P) { l_done = true; if (old_ == notified) l_owes = true; } } while (0)
-static void STUB_arena_ref(void) {} static void STUB_arena_unref(void) {} static void STUB_advertise(void) {}
+int g_pins, g_advertised;   /* the arena is pinned (extra reference) from before the push until after the wake-up: the pushed task may be taken, the stack continued and the arena abandoned by its last thread at once */
+static void STUB_arena_ref(void) { g_pins++; } static void STUB_arena_unref(void) { OBLIGATION(g_pins == 1 && g_advertised == 1, "C20.arena: the resumer's arena reference is given back once, after the wake-up"); g_pins--; }
+static void STUB_advertise(void) { OBLIGATION(g_pins == 1 && pushes >= 1, "C20.arena: waiting threads are woken after the resume task has been pushed, while the resumer still holds its arena reference"); g_advertised++; }
 bool g_crit_allowed;
 static bool STUB_target_critical_allowed(struct sp *s) { return g_crit_allowed = nondet_bool(); }
 static void STUB_push_resume_task(struct sp *s, int critical) {
     OBLIGATION(s == &P && l_done, "C20: no resume task is pushed while the stack is still active (the leaver has marked it suspended)");
     OBLIGATION(g_role == 0 ? r_owes : l_owes, "C20: a resume task is pushed only by the party that owes it");
     OBLIGATION(critical == !g_crit_allowed, "C20: the resume task goes to the resume stream, which every waiting thread polls, unless the target stack is inside a critical task (then the critical stream) - otherwise isolated waiters never continue it");
+    OBLIGATION(g_pins == 1 && g_advertised == 0, "C20.arena: the resume task is pushed while the resumer holds a reference on the arena (the arena outlives the suspended task)");
     pushes++; if (g_role == 0) r_owes = false; else l_owes = false;
 }
 void r1_resume(struct sp *sp);
 #include "sp.inc"
 static void init(void) {
     P.m_stack_state = nondet_int(); r_called = nondet_bool(); l_done = nondet_bool(); l_owes = nondet_bool(); r_owes = false; pushes = nondet_unsigned();
-    Q.m_stack_state = notified; Q.m_prev_suspend_point = &P; P.m_prev_suspend_point = NULL;
+    Q.m_stack_state = notified; Q.m_prev_suspend_point = &P; P.m_prev_suspend_point = NULL; g_pins = g_advertised = 0;
 }
 void h_resumer(void) {
     g_role = 0; init(); __CPROVER_assume(HINV && !r_called);                 /* the one resume() call for this suspension has not happened yet */
     r1_resume(&P);
     OBLIGATION(HINV && r_called && !r_owes, "C20: after resume() the push has happened or is owed by the leaver");
+    OBLIGATION(g_pins == 0 && g_advertised == (pushes ? 1 : 0), "C20.arena: resume() returns without a dangling arena reference, and has woken the arena exactly when it pushed");
     leaver_steps(true);                                                      /* let the leaver finish */
     OBLIGATION(pushes == 1 && P.m_stack_state == notified, "C20: exactly one resume task is pushed per suspension, whichever exchange came first");
     VACUITY_END();
@@ -53,6 +61,7 @@ void h_leaver(void) {
     g_role = 1; init(); __CPROVER_assume(HINV && !l_done);                   /* the leaver is about to mark the stack it left */
     sp_finilize_resume(&Q);
     OBLIGATION(HINV && l_done && !l_owes && Q.m_stack_state == active && Q.m_prev_suspend_point == NULL, "C20: after finilize_resume the new stack is active, the old one suspended or handed to the resumer");
+    OBLIGATION(g_pins == 0, "C20.arena: no dangling arena reference");
     resumer_steps(true);
     OBLIGATION(pushes == 1 && P.m_stack_state == notified, "C20: exactly one resume task is pushed per suspension, whichever exchange came first");
     VACUITY_END();
@@ -62,6 +71,7 @@ void h_recall(void) {
     struct sp *s = &Q; Q.m_stack_state = suspended; Q.m_is_owner_recalled = false;   /* recall works on a stack nobody resumes through the hand-shake */
     sp_recall_owner(&Q);
     OBLIGATION(Q.m_stack_state == notified && Q.m_is_owner_recalled, "C20: recall_owner marks the suspended stack notified and raises the recall flag");
+    OBLIGATION(pushes == 0, "C20.recall: a recalled stack gets no resume task in a stream: only its owner continues it (get_self_recall_task)");
     VACUITY_END();
 }
 
@@ -76,12 +86,22 @@ struct sp2 { bool m_is_owner_recalled; };
 #define sp sp2
 struct task_dispatcher; struct arena_slot { struct task_dispatcher *my_default_task_dispatcher; };
 struct thread_data { int my_post_resume_action; void *my_post_resume_arg; struct task_dispatcher *my_task_dispatcher; struct arena_slot *my_arena_slot; };
-struct task_dispatcher { struct thread_data *m_thread_data; struct sp2 *m_suspend_point; };
+struct properties { bool outermost, fifo_tasks_allowed, critical_task_allowed; }; struct execution_data_ext { void *context; struct task_dispatcher *task_disp; intptr_t isolation; void *wait_ctx; };
+struct task_dispatcher { struct thread_data *m_thread_data; struct sp2 *m_suspend_point; struct properties m_properties; struct execution_data_ext m_execute_data_ext; uintptr_t m_stealing_threshold; };
+struct snapshot { struct properties p; struct execution_data_ext e; uintptr_t thr; struct sp2 *s; };
+#define SAME_DISP(a, d) ((a).p.outermost == (d)->m_properties.outermost && (a).p.fifo_tasks_allowed == (d)->m_properties.fifo_tasks_allowed && (a).p.critical_task_allowed == (d)->m_properties.critical_task_allowed \
+    && (a).e.context == (d)->m_execute_data_ext.context && (a).e.task_disp == (d)->m_execute_data_ext.task_disp && (a).e.isolation == (d)->m_execute_data_ext.isolation && (a).e.wait_ctx == (d)->m_execute_data_ext.wait_ctx \
+    && (a).thr == (d)->m_stealing_threshold && (a).s == (d)->m_suspend_point)
+#define FRAME_TEXT "C20.frame: the code around the stack switch leaves the dispatcher state the suspended task relies on (outermost, fifo/critical permission, isolation, execution data, stealing threshold, suspend point) as it was"
+
 static struct thread_data TD; static struct arena_slot SLOT; static struct task_dispatcher ME, OTHER, DEFLT; static struct sp2 SP_ME, SP_OTHER, SP_PENDING;
 int g_rewait, g_unref, g_cache, g_recall, g_wake, g_fin, g_detach, g_attach, g_switch, g_polls; void *g_rewait_arg, *g_cache_arg, *g_recall_arg, *g_wake_arg; int g_pending0; void *g_arg0;
 static void STUB_resume_context_notify(void *a) { g_rewait++; g_rewait_arg = a; }
 static void STUB_arena_unref_external(struct thread_data *td) { g_unref++; }
-static void STUB_co_cache_push(struct thread_data *td, struct task_dispatcher *d) { g_cache++; g_cache_arg = d; }
+static void STUB_co_cache_push(struct thread_data *td, struct task_dispatcher *d) {
+    OBLIGATION(d != td->my_task_dispatcher, "C20.switch: a coroutine is cached (and may be destroyed or handed out again at once) only from another stack");
+    OBLIGATION(d->m_thread_data != td, "C20.switch: a coroutine is cached only after its thread has left it");
+    g_cache++; g_cache_arg = d; }
 static void STUB_sp_recall_owner(struct sp2 *s) { __CPROVER_assert(g_wake == 0, "C20.switch: the owner is recalled before its waiters are woken"); g_recall++; g_recall_arg = s; }
 static void STUB_notify_waiters_of(struct thread_data *td, struct sp2 *s) { g_wake++; g_wake_arg = s; }
 static void STUB_sp_finilize_resume(struct sp2 *s) { __CPROVER_assert(g_recall + g_cache + g_rewait == 0, "C20.switch: the hand-shake with the stack that was left (finilize_resume) comes before the post-resume action"); g_fin++; }
@@ -120,11 +140,15 @@ static void STUB_inbox_set_idle_false(struct task_dispatcher *self) {}
 #define LOOP_colw_1 __CPROVER_assigns(resume_task, TD, ME.m_thread_data, g_polls, g_pending0, g_arg0, g_rewait, g_unref, g_cache, g_recall, g_wake, g_rewait_arg, g_cache_arg, g_recall_arg, g_wake_arg) \
   __CPROVER_loop_invariant(TD.my_post_resume_action == pra_none && TD.my_post_resume_arg == NULL && ME.m_thread_data == &TD && TD.my_task_dispatcher == &ME)
 #include "switch.inc"
+static struct snapshot havoc_disp(struct task_dispatcher *d) { struct snapshot s; d->m_properties.outermost = nondet_bool(); d->m_properties.fifo_tasks_allowed = nondet_bool(); d->m_properties.critical_task_allowed = nondet_bool();
+    d->m_execute_data_ext.context = nondet_ptr(); d->m_execute_data_ext.task_disp = d; d->m_execute_data_ext.isolation = nondet_intptr_t(); d->m_execute_data_ext.wait_ctx = nondet_ptr(); d->m_stealing_threshold = nondet_uintptr_t();
+    s.p = d->m_properties; s.e = d->m_execute_data_ext; s.thr = d->m_stealing_threshold; s.s = d->m_suspend_point; return s; }
 static void world(void) { SLOT.my_default_task_dispatcher = &DEFLT; TD.my_arena_slot = &SLOT; ME.m_suspend_point = &SP_ME; OTHER.m_suspend_point = &SP_OTHER; DEFLT.m_suspend_point = &SP_OTHER;
     g_fin = g_detach = g_attach = g_switch = g_polls = g_suspends = 0; }
 void h_post_action(void) {
-    world(); arrive_with_pending(&ME);
+    world(); arrive_with_pending(&ME); struct snapshot s0 = havoc_disp(&ME); struct snapshot s1 = havoc_disp(&OTHER);
     td_do_post_resume_action(&ME);
+    OBLIGATION(SAME_DISP(s0, &ME) && SAME_DISP(s1, &OTHER), FRAME_TEXT);
     OBLIGATION(ACTION_DONE_ONCE, "C20.switch: do_post_resume_action performs exactly the pending action, once, on its own argument (waiter re-registered | coroutine unreferenced and cached | owner recalled then woken), and clears it");
     VACUITY_END();
 }
@@ -136,9 +160,11 @@ void h_prologue(void) {
 }
 void h_td_resume(void) {
     world(); struct task_dispatcher *self = nondet_bool() ? &ME : &DEFLT; self->m_thread_data = &TD; TD.my_task_dispatcher = self; TD.my_post_resume_action = nondet_int(); TD.my_post_resume_arg = nondet_ptr();
+    struct snapshot s0 = havoc_disp(self); struct snapshot s1 = havoc_disp(&OTHER);
     int act0 = TD.my_post_resume_action; void *arg0 = TD.my_post_resume_arg; SP_ME.m_is_owner_recalled = nondet_bool(); SP_OTHER.m_is_owner_recalled = nondet_bool(); bool rme = SP_ME.m_is_owner_recalled, rot = SP_OTHER.m_is_owner_recalled;
     bool r = td_resume(self, &OTHER);
     OBLIGATION(g_switch == 1 && g_detach == 1 && g_attach == 1, "C20.switch: resume switches stacks exactly once, with the thread re-attached to the target first");
+    OBLIGATION(SAME_DISP(s0, self) && SAME_DISP(s1, &OTHER), FRAME_TEXT);
     if (self->m_thread_data == NULL) OBLIGATION(!r && g_rewait + g_unref + g_cache + g_recall + g_wake == 0 && SP_ME.m_is_owner_recalled == rme && SP_OTHER.m_is_owner_recalled == rot, "C20.switch: a stack that is not continued touches nothing");
     else {
         OBLIGATION(r && ACTION_DONE_ONCE, "C20.forgotten: when a stack is continued the post-resume action left by the previous stack is performed exactly once, first thing");
@@ -148,7 +174,9 @@ void h_td_resume(void) {
 }
 void h_recall_point(void) {
     world(); struct task_dispatcher *self = nondet_bool() ? &ME : &DEFLT; self->m_thread_data = &TD; TD.my_task_dispatcher = self; TD.my_post_resume_action = pra_none; TD.my_post_resume_arg = NULL; SP_ME.m_is_owner_recalled = false; SP_OTHER.m_is_owner_recalled = false;
+    struct snapshot s0 = havoc_disp(self);
     td_recall_point(self);
+    OBLIGATION(SAME_DISP(s0, self), FRAME_TEXT);
     OBLIGATION(g_suspends == (self != &DEFLT), "C20.switch: at the end of an outermost level, a thread that is on a foreign stack leaves it (asking for the recall of its owner); on its own default stack it just returns");
     VACUITY_END();
 }
